@@ -461,7 +461,16 @@ class XmlDocument(SubXmlBase):
         # without the lock, a validation that runs in another thread between
         # validate() and the read below replaces the error text.
         with self._validation_mtx:
-            ret = self.validation_schema.validate(payload)
+            try:
+                ret = self.validation_schema.validate(payload)
+
+            except (etree.LxmlError, ValueError) as e:
+                # libxml2 does not judge some documents at all (e.g. ones with
+                # unresolved entity references): "Internal error in XML
+                # Schema validation". They are not valid either.
+                raise SchemaValidationError(text_type(e).encode('ascii',
+                                                           'xmlcharrefreplace'))
+
             error = self.validation_schema.error_log.last_error
 
         logger.debug("Validated ? %r" % ret)
